@@ -17,6 +17,7 @@ MCNames == {n \in WNames : \A i \in 1..Len(n) : n[i] = <<>> \/ n[i] \in T1(Write
 Init == /\ mode \in Modes /\ wtable = <<>> /\ last = NoLast /\ nw = 0
         /\ \/ mode = "decode" /\ \E cs \in PlainCases \cup SegCases : DInit(cs[1], cs[2])
            \/ mode = "write" /\ \E b \in WBases : DInit([base |-> b, tail |-> <<>>], 0)
+           \/ mode = "plain" /\ DInit([base |-> 0, tail |-> <<>>], 0)
 
 Dec == mode = "decode" /\ DNext /\ UNCHANGED <<mode, wtable, last, nw>>
 Write == /\ mode = "write" /\ nw < MaxWrites
@@ -28,7 +29,12 @@ Write == /\ mode = "write" /\ nw < MaxWrites
               /\ last' = [p |-> WLen(buf), out |-> r[2], full |-> FullName(n, o)[2]]
          /\ nw' = nw + 1
          /\ UNCHANGED <<mode, start, pos, lowest, labels, total, hops, cons, status>>
-Next == Dec \/ Write
+(* mode "plain": pick a relative name, then an origin (two steps: the workers share the work) *)
+PickRel == mode = "plain" /\ nw = 0 /\ nw' = 1 /\ \E n \in LenRel : last' = [p |-> 0, out |-> n, full |-> <<>>]
+           /\ UNCHANGED <<dvars, mode, wtable>>
+PickOrg == mode = "plain" /\ nw = 1 /\ nw' = 2 /\ \E o \in LenOrg : last' = [last EXCEPT !.full = o]
+           /\ UNCHANGED <<dvars, mode, wtable>>
+Next == Dec \/ Write \/ PickRel \/ PickOrg
 Spec == Init /\ [][Next]_vars
 
 -----------------------------------------------------------------------------
@@ -54,4 +60,18 @@ WriteTableSound == Wrote => /\ TableSound(buf, wtable, WLen(buf))
                             /\ \A k \in DOMAIN wtable : Len(k) > 1            \* never the root
 (* the longest known suffix is used: what was written literally was not in the table before *)
 WriteShortest == Wrote => Len(last.out) <= WireLen(last.full)
+(* every encoder either refuses or yields at most MaxWire octets, exactly when the
+   derelativized name exists; all three agree and decode back *)
+Plained == mode = "plain" /\ nw = 2
+EncodersBounded ==
+    Plained => LET n == last.out  o == last.full
+                   d == Derelativize(n, o)
+                   w == ToWire(n, Some(o), FALSE)
+                   c == ToWire(n, Some(o), TRUE)
+                   f == WriteName(n, Some(o), <<>>, 0)
+               IN  /\ (IsOk(w) <=> IsOk(d)) /\ (IsOk(c) <=> IsOk(d)) /\ (f[1] = "ok" <=> IsOk(d))
+                   /\ (IsOk(d) <=> WireLen(n) + WireLen(o) <= MaxWire)
+                   /\ (IsOk(w) => /\ Len(w[2]) <= MaxWire /\ Len(w[2]) = WireLen(d[2]) /\ Len(c[2]) = Len(w[2])
+                                  /\ f[2] = w[2]
+                                  /\ Decode(Plain(w[2]), 0) = <<"ok", d[2], Len(w[2])>>)
 =============================================================================
